@@ -324,7 +324,7 @@ theorem revealBefore_step (H : Hyp a T) (R : Ptr → Rat) {B M : List Word} {Lb 
           by_cases hpos : 0 < Lw
           · have := s6 hpos; rw [hPl] at this; simp at this; omega
           · omega
-      · exact closedP_of_cn H M (bw.take k) x Lw hLwM m3
+      · exact closedP_of_cn H M (bw.take k) x Lw hLwM m3.toCN
     refine ⟨Lw, ⟨hwritten, hxl', hLwM, hbound', hscore _ htail, (fun hc => by cases hc), fun _ => hcl⟩⟩
   · have hopen : left.full = false := by simpa using hfull
     obtain ⟨o1, o2, o3, o4⟩ := I.open_ hopen
@@ -388,7 +388,7 @@ theorem revealBefore_step (H : Hyp a T) (R : Ptr → Rat) {B M : List Word} {Lb 
           have := hbound'
           omega
         · rw [m4, o2] at hc'; omega
-      · exact closedP_of_cn H M (bw.take k) x Lw hLwM m3
+      · exact closedP_of_cn H M (bw.take k) x Lw hLwM m3.toCN
 
 
 theorem hSum_eq_psum (R : Ptr → Rat) (F h : List Word) : ∀ L, hSum R F h L = psum R F h L := by
